@@ -196,11 +196,11 @@ func (w *c11World) refSrc(r c11Ref) string {
 // ---- reference composition ----------------------------------------------------------
 
 type c11Sim struct {
-	w       *c11World
-	hits    map[string]int // expected successful fetches per absolute name
-	out     strings.Builder
-	failed  string // name of a missing template that makes the rendering fail ("" = none)
-	failAt  string // "compile" or "execute"
+	w         *c11World
+	hits      map[string]int // expected successful fetches per absolute name
+	out       strings.Builder
+	failed    string // name of a missing template that makes the rendering fail ("" = none)
+	failAt    string // "compile" or "execute"
 	executing bool
 }
 
